@@ -381,7 +381,7 @@ PLANS["C08"] = dict(
           "NUL, huge digit strings, commas, boundary look-alikes, LF-only, broken headers). Every input is run against every target type of its decoder. Oracle: no panic, no process death, no call "
           "beyond 2 s CPU (watchdog: 20 s wall kills the worker and the journal names the call), every yielded str valid UTF-8, every borrowed slice inside the input. distinct_nontrivial = distinct "
           "(decoder, target type, outcome, input class)."),
-    quick=[R("c08", "rel", 40_000), R("c08", "dbg", 10_000), R("c08", "miri", 48, shards=8, flags={"small": 1})],
+    quick=[R("c08", "rel", 40_000, max_restarts=4), R("c08", "dbg", 10_000, max_restarts=4), R("c08", "miri", 48, shards=8, flags={"small": 1})],
     thorough=[R("c08", "rel", 3_000_000), R("c08", "dbg", 400_000), R("c08", "asan", 600_000), R("c08", "miri", 3_200, shards=16, flags={"small": 1})],
     floors={"quick": {"evaluations": 1_000_000, "distinct": 350, "urlencoded:ok": 15_000, "cookie:ok": 10_000, "multipart:ok": 5_000, "urlencoded:err": 100_000, "multipart:err": 50_000},
             "thorough": {"evaluations": 60_000_000, "distinct": 450}},
